@@ -1,5 +1,5 @@
 """Property registry: which machinery decides which property."""
-import json, os, sys
+import json, os, re, sys
 from checklib import *  # noqa
 
 STATE_PREDS = {"Conservation", "NoNegative", "WellFormed", "SysClean", "CounterWithRole"}
@@ -95,6 +95,36 @@ def fault_model(run):
 
 LEDGER["C17"]["extra_mc"] = [fault_model]
 
+def replay_walks(run, mc, n, depth, preds, label, rejected=False):
+    """Specification -> code: TLC simulates the bounded model, the harness replays every walk on the real code from the model's
+    initial world (state injection), and the recorded behaviour is validated by TLC like any other trace."""
+    d = run.spec_dir("sim-" + label)
+    kw = dict(mc["kw"])
+    kw["rejected"] = rejected or kw.get("rejected", False)
+    cfg = mc_cfg(mc["fns"], mc["msgs"], mc["supply"], mc["ctr"], **kw)
+    cfg = cfg.replace("SPECIFICATION Spec", "SPECIFICATION SimSpec").replace("VIEW View\n", "").replace("CONSTANTS\n", "CONSTANTS\n  Depth = %d\n" % depth)
+    rc, o = run.tlc(d, "EsdtSim", cfg, workers=1, timeout=1500, extra=["-simulate", "num=%d" % n, "-depth", str(depth + 2), "-seed", str(run.seed)])
+    if "Error" in o and "WALK" not in o:
+        raise Infra("simulation of the model failed:\n" + tail_errors(o))
+    walks = re.findall(r'<<\s*"WALK",\s*"(.*?)"\s*>>', o, re.S)
+    wf = os.path.join(run.dir, "walks-%s.ndjson" % label)
+    with open(wf, "w") as f:
+        for wk in walks:
+            f.write(wk.replace('\\"', '"').replace("\\\\", "\\").replace("\n", "") + "\n")
+    if not walks:
+        raise Infra("the simulation produced no behaviour of depth %d" % depth)
+    trace = os.path.join(run.dir, "mcreplay-%s.ndjson" % label)
+    st = run.harness(["mcreplay", "-in", wf, "-out", trace])
+    viols, done = run.validate(trace, preds + ["P00_ReplayAgrees"], label="tv-sim-" + label)
+    record_ledger_violations(run, trace, viols, family="mcreplay", walks=wf)
+    run.cov["traces_validated_against_impl"] += st["traces"]
+    run.cov.setdefault("replayed_model_behaviours", 0)
+    run.cov["replayed_model_behaviours"] += st["traces"]
+    run.cov.setdefault("replayed_model_steps", 0)
+    run.cov["replayed_model_steps"] += st["steps"]
+    return done
+
+
 SIZES = {"quick": dict(traces=16, steps=140), "thorough": dict(traces=240, steps=300)}
 
 
@@ -107,6 +137,18 @@ def run_ledger(run):
                         timeout=900 if run.tier == "quick" else 7200)
     for f in spec.get("extra_mc", []):
         f(run)
+    # specification -> code: replay of model behaviours
+    total_replay = 0
+    for n, mc in enumerate(spec["mc"][0 if run.tier == "quick" else 1]):
+        if run.tier == "quick" and n > 0:
+            break
+        nw = 30 if run.tier == "quick" else 400
+        done = replay_walks(run, mc, nw, 12 if run.tier == "quick" else 16, spec["preds"], "%d" % n)
+        total_replay += done["counters"].get("replayed", 0)
+        if n == 0:
+            done = replay_walks(run, mc, nw // 2, 10, spec["preds"], "%dr" % n, rejected=True)
+            total_replay += done["counters"].get("replayed", 0)
+    run.require(total_replay >= 80, "replayed model steps=%d < 80" % total_replay)
     # (T) recorded behaviours of the real code
     sz = SIZES[run.tier]
     scale = spec.get("scale", 1.0)
@@ -149,14 +191,22 @@ def slim_event(ev):
     return e
 
 
-def record_ledger_violations(run, trace, viols):
+def record_ledger_violations(run, trace, viols, family="ledger", walks=None):
     if not viols:
         return
     lines = read_lines(trace, [l for l, _ in viols[:50]])
     for l, pred in viols[:50]:
         ev = lines[l]["ev"]
         desc = {"fn": ev["fn"], "a": ev["a"], "res": ev["res"], "caller": ev["caller"], "rcpt": ev["rcpt"], "line": l, "nargs": len(ev["args"])}
-        run.add_violation(pred, desc, {"family": "ledger", "steps": trace_prefix(trace + ".replay", l), "event": ev, "checked": [pred]})
+        obj = {"family": family, "steps": trace_prefix(trace + ".replay", l), "event": ev, "checked": [pred]}
+        if family == "mcreplay":
+            # the walk (model behaviour) that contains the failing step
+            tno = obj["steps"][0].get("trace", 0) if obj["steps"] else 0
+            with open(walks) as f:
+                for i, wl in enumerate(f):
+                    if i == tno:
+                        obj["walk"] = json.loads(wl)
+        run.add_violation(pred, desc, obj)
 
 
 def replay(path):
@@ -166,12 +216,17 @@ def replay(path):
     run.dir = os.path.join(WORK, "replay")
     os.makedirs(run.dir, exist_ok=True)
     try:
-        if obj.get("family") == "ledger":
+        if obj.get("family") in ("ledger", "mcreplay"):
             run.build_harness()
-            steps = os.path.join(run.dir, "steps.json")
-            json.dump(obj["steps"], open(steps, "w"))
             trace = os.path.join(run.dir, "replay.ndjson")
-            run.harness(["replay", "-in", steps, "-out", trace])
+            if obj["family"] == "ledger":
+                steps = os.path.join(run.dir, "steps.json")
+                json.dump(obj["steps"], open(steps, "w"))
+                run.harness(["replay", "-in", steps, "-out", trace])
+            else:
+                wf = os.path.join(run.dir, "walk.ndjson")
+                open(wf, "w").write(json.dumps(obj["walk"]) + "\n")
+                run.harness(["mcreplay", "-in", wf, "-out", trace])
             viols, done = run.validate(trace, obj["checked"], label="tv-replay")
             hit = [v for v in viols if v[1] == obj["predicate"]]
             if hit:
